@@ -106,10 +106,9 @@ package parser
 //@ pred ReserveOverlap(next string, curLineNum int, numLines int) = slen(next) > 0 && (curLineNum >= numLines - 1 || next == "\\p" || next == "\\l")
 
 //@ func (fc *FontConfig) FormatText
-//@   requires [C07:overlap-nonneg] cursorOverlapWidth >= 0
-//@   ensures [C07:width] result1 == nil ==> (forall t int :: {piecesOf(result0)[3*t]} (0 <= t && 3*t + 1 < len(piecesOf(result0))) ==>
+//@   ensures [C07:width] (result1 == nil && cursorOverlapWidth >= 0) ==> (forall t int :: {piecesOf(result0)[3*t]} (0 <= t && 3*t + 1 < len(piecesOf(result0))) ==>
 //@        LineFits(fc, fontID, SpaceWOf(fc, fontID), piecesOf(result0)[3*t], piecesOf(result0)[3*t + 1], maxWidth, cursorOverlapWidth))
-//@   ensures [C07:width-last] (result1 == nil && gorem(len(piecesOf(result0)), 3) == 1) ==>
+//@   ensures [C07:width-last] (result1 == nil && cursorOverlapWidth >= 0 && gorem(len(piecesOf(result0)), 3) == 1) ==>
 //@        LineFits(fc, fontID, SpaceWOf(fc, fontID), piecesOf(result0)[len(piecesOf(result0)) - 1], "", maxWidth, cursorOverlapWidth)
 //@   loop 1
 //@     invariant [C17:font-ids] i == $n && len(validFontIDs) == len(fc.Fonts) && (forall a int :: {validFontIDs[a]} (0 <= a && a < i) ==> has($visited, validFontIDs[a]))
@@ -124,7 +123,7 @@ package parser
 //@     invariant [C07:acct] curLineSb.nbytes >= 0 && (curLineSb.nbytes > 0) == (len(curLineSb.pieces) > 0) && len(curLineSb.markers) == 0
 //@     invariant [C07:lastcheck] len(curLineSb.pieces) >= 3 ==> curWidth + (ReserveOverlap(word, curLineNum, numLines) ? cursorOverlapWidth : 0) <= maxWidth
 //@     invariant [C07:shape] gorem(len(formattedSb.pieces), 3) == 0 && len(formattedSb.pieces) >= 0 && len(formattedSb.markers) == 0
-//@     invariant [C07:width-inv] forall t int :: {formattedSb.pieces[3*t]} (0 <= t && 3*t + 2 < len(formattedSb.pieces)) ==>
+//@     invariant [C07:width-inv] forall t int :: {formattedSb.pieces[3*t]} (cursorOverlapWidth >= 0 && 0 <= t && 3*t + 2 < len(formattedSb.pieces)) ==>
 //@        LineFits(fc, fontID, spaceCharWidth, formattedSb.pieces[3*t], formattedSb.pieces[3*t + 1], maxWidth, cursorOverlapWidth)
 //@     transition [C07:discipline] (len(formattedSb.pieces) == prev(len(formattedSb.pieces)) + 3 && (prev(word) == "\\N" || !IsBreakWord(prev(word))))
 //@        ==> formattedSb.pieces[prev(len(formattedSb.pieces)) + 1] == (prev(curLineNum) >= numLines - 1 ? "\\l" : "\\n")
@@ -149,24 +148,31 @@ package parser
 //@ pred PState(p *Parser) = PInv(p) && StackOK(p.breakStack) && StackOK(p.continueStack)
 //@   && p.constants != nil && p.inlineTextsSet != nil && p.inlineTextCounts != nil && p.inlineMovementsSet != nil && p.inlineMovementCounts != nil
 //@ pred PSame(p *Parser, l0 *lexer.Lexer, in0 string) = p.l == l0 && p.l.input == in0
+// the hoisting tables and the constant table are the same map objects (their contents may change)
+//@ pred PMaps(p *Parser, a map[string]string, b map[textKey]string, c map[string]int, d map[string]string, e map[string]int) =
+//@   p.constants == a && p.inlineTextsSet == b && p.inlineTextCounts == c && p.inlineMovementsSet == d && p.inlineMovementCounts == e
 
 //@ func ParseFrame
 //@   nobody
 //@   params p
 //@   requires [C18:pstate] PState(p)
 //@   modifies fields(p), fields(p.l)
-//@   ensures [C18:pstate] PState(p) && PSame(p, old(p.l), old(p.l.input))
-//@   loopinv [C18:pstate-inv] PState(p) && PSame(p, old(p.l), old(p.l.input))
+//@   ensures [C18:pstate] PState(p) && PSame(p, old(p.l), old(p.l.input)) && PMaps(p, old(p.constants), old(p.inlineTextsSet), old(p.inlineTextCounts), old(p.inlineMovementsSet), old(p.inlineMovementCounts))
+//@   loopinv [C18:pstate-inv] PState(p) && PSame(p, old(p.l), old(p.l.input)) && PMaps(p, old(p.constants), old(p.inlineTextsSet), old(p.inlineTextCounts), old(p.inlineMovementsSet), old(p.inlineMovementCounts))
 //@ end
 
 //@ func ListParserFn
 //@   nobody
 //@   params p, allowMultiple
 //@   include ParseFrame
+//@   requires p != nil
+//@   ensures [C20:stack-balanced] result1 == nil ==> (SameStack(p.breakStack, old(p.breakStack)) && SameStack(p.continueStack, old(p.continueStack)))
 //@ end
 
 //@ func (p *Parser) expectPeekVarOrAutoVar
 //@   include ParseFrame
+//@   ensures [C11,C18:autovar-results] (result3 == nil && result1 != nil) ==> (result0 != nil && fresh(result1))
+//@   ensures [C11,C18:autovar-var] (result3 == nil && result1 == nil) ==> result0 == nil
 //@   ensures [C20:stack-balanced] result3 == nil ==> (SameStack(p.breakStack, old(p.breakStack)) && SameStack(p.continueStack, old(p.continueStack)))
 //@   loopinv [C20:stack-balanced-inv] SameStack(p.breakStack, old(p.breakStack)) && SameStack(p.continueStack, old(p.continueStack))
 //@ end
@@ -180,16 +186,24 @@ package parser
 
 //@ func (p *Parser) addImplicitData
 //@   include ParseFrame
+//@   ensures [C20:stack-balanced] SameStack(p.breakStack, old(p.breakStack)) && SameStack(p.continueStack, old(p.continueStack))
+//@   loopinv [C20:stack-balanced-inv] SameStack(p.breakStack, old(p.breakStack)) && SameStack(p.continueStack, old(p.continueStack))
 //@   modifies p.constants, p.inlineTextsSet, p.inlineTextCounts, p.inlineMovementsSet, p.inlineMovementCounts, allof(ast.CommandStatement.Args)
 //@ end
 
 //@ func (p *Parser) addImplicitTexts
 //@   include ParseFrame
+//@   requires [C06:slot] forall k int :: {texts[k]} (0 <= k && k < len(texts)) ==> (texts[k].command != nil && 0 <= texts[k].argPos && texts[k].argPos < len(texts[k].command.Args))
+//@   ensures [C20:stack-balanced] SameStack(p.breakStack, old(p.breakStack)) && SameStack(p.continueStack, old(p.continueStack))
+//@   loopinv [C20:stack-balanced-inv] SameStack(p.breakStack, old(p.breakStack)) && SameStack(p.continueStack, old(p.continueStack))
 //@   modifies p.constants, p.inlineTextsSet, p.inlineTextCounts, p.inlineMovementsSet, p.inlineMovementCounts, allof(ast.CommandStatement.Args)
 //@ end
 
 //@ func (p *Parser) addImplicitMovements
 //@   include ParseFrame
+//@   requires [C06:slot] forall k int :: {movements[k]} (0 <= k && k < len(movements)) ==> (movements[k].command != nil && 0 <= movements[k].argPos && movements[k].argPos < len(movements[k].command.Args))
+//@   ensures [C20:stack-balanced] SameStack(p.breakStack, old(p.breakStack)) && SameStack(p.continueStack, old(p.continueStack))
+//@   loopinv [C20:stack-balanced-inv] SameStack(p.breakStack, old(p.breakStack)) && SameStack(p.continueStack, old(p.continueStack))
 //@   modifies p.constants, p.inlineTextsSet, p.inlineTextCounts, p.inlineMovementsSet, p.inlineMovementCounts, allof(ast.CommandStatement.Args)
 //@ end
 
@@ -219,12 +233,15 @@ package parser
 
 //@ func (p *Parser) parseCommandStatement
 //@   include ParseFrame
+//@   ensures [C18:cmd-fresh] result2 == nil ==> (result0 != nil && fresh(result0) && len(result0.Args) >= 0)
 //@   ensures [C20:stack-balanced] result2 == nil ==> (SameStack(p.breakStack, old(p.breakStack)) && SameStack(p.continueStack, old(p.continueStack)))
 //@   loopinv [C20:stack-balanced-inv] SameStack(p.breakStack, old(p.breakStack)) && SameStack(p.continueStack, old(p.continueStack))
 //@ end
 
 //@ func (p *Parser) tryParseLabelStatement
 //@   include ParseFrame
+//@   ensures [C20:stack-balanced] SameStack(p.breakStack, old(p.breakStack)) && SameStack(p.continueStack, old(p.continueStack))
+//@   loopinv [C20:stack-balanced-inv] SameStack(p.breakStack, old(p.breakStack)) && SameStack(p.continueStack, old(p.continueStack))
 //@ end
 
 //@ func (p *Parser) parseRawStatement
@@ -271,12 +288,14 @@ package parser
 
 //@ func parseMovementValue
 //@   include ParseFrame
+//@   requires p != nil
 //@   ensures [C20:stack-balanced] result1 == nil ==> (SameStack(p.breakStack, old(p.breakStack)) && SameStack(p.continueStack, old(p.continueStack)))
 //@   loopinv [C20:stack-balanced-inv] SameStack(p.breakStack, old(p.breakStack)) && SameStack(p.continueStack, old(p.continueStack))
 //@ end
 
 //@ func parseMovementValue$1
 //@   include ParseFrame
+//@   requires p != nil
 //@   implements ListParserFn
 //@   ensures [C20:stack-balanced] result1 == nil ==> (SameStack(p.breakStack, old(p.breakStack)) && SameStack(p.continueStack, old(p.continueStack)))
 //@   loopinv [C20:stack-balanced-inv] SameStack(p.breakStack, old(p.breakStack)) && SameStack(p.continueStack, old(p.continueStack))
@@ -299,11 +318,11 @@ package parser
 //@ func (p *Parser) parseMartStatement
 //@   include ParseFrame
 //@   ensures [C20:stack-balanced] result1 == nil ==> (SameStack(p.breakStack, old(p.breakStack)) && SameStack(p.continueStack, old(p.continueStack)))
-//@   loopinv [C20:stack-balanced-inv] SameStack(p.breakStack, old(p.breakStack)) && SameStack(p.continueStack, old(p.continueStack))
 //@ end
 
 //@ func parseMartValue
 //@   include ParseFrame
+//@   requires p != nil
 //@   implements ListParserFn
 //@   ensures [C20:stack-balanced] result1 == nil ==> (SameStack(p.breakStack, old(p.breakStack)) && SameStack(p.continueStack, old(p.continueStack)))
 //@   loopinv [C20:stack-balanced-inv] SameStack(p.breakStack, old(p.breakStack)) && SameStack(p.continueStack, old(p.continueStack))
@@ -383,18 +402,23 @@ package parser
 
 //@ func (p *Parser) parseLeafBooleanExpression
 //@   include ParseFrame
+//@   ensures [C18:leaf-fresh] result2 == nil ==> (result0 != nil && fresh(result0))
 //@   ensures [C20:stack-balanced] result2 == nil ==> (SameStack(p.breakStack, old(p.breakStack)) && SameStack(p.continueStack, old(p.continueStack)))
 //@   loopinv [C20:stack-balanced-inv] SameStack(p.breakStack, old(p.breakStack)) && SameStack(p.continueStack, old(p.continueStack))
 //@ end
 
 //@ func (p *Parser) parseConditionVarOperator
 //@   include ParseFrame
+//@   requires expression != nil
+//@   modifies expression.Operator, expression.ComparisonValue, expression.ComparisonValueType
 //@   ensures [C20:stack-balanced] result0 == nil ==> (SameStack(p.breakStack, old(p.breakStack)) && SameStack(p.continueStack, old(p.continueStack)))
 //@   loopinv [C20:stack-balanced-inv] SameStack(p.breakStack, old(p.breakStack)) && SameStack(p.continueStack, old(p.continueStack))
 //@ end
 
 //@ func (p *Parser) parseConditionFlagLikeOperator
 //@   include ParseFrame
+//@   requires expression != nil
+//@   modifies expression.Operator, expression.ComparisonValue, expression.ComparisonValueType
 //@   ensures [C20:stack-balanced] result0 == nil ==> (SameStack(p.breakStack, old(p.breakStack)) && SameStack(p.continueStack, old(p.continueStack)))
 //@   loopinv [C20:stack-balanced-inv] SameStack(p.breakStack, old(p.breakStack)) && SameStack(p.continueStack, old(p.continueStack))
 //@ end
